@@ -2,6 +2,8 @@ package yqlib
 
 import (
 	"os"
+
+	"github.com/mikefarah/yq/v4/pkg/verifhook"
 )
 
 type writeInPlaceHandler interface {
@@ -25,8 +27,14 @@ func (w *writeInPlaceHandlerImpl) CreateTempFile() (*os.File, error) {
 	if err != nil {
 		return nil, err
 	}
+	if err = verifhook.Step("inplace.statTarget", w.inputFilename); err != nil {
+		return nil, err
+	}
 	info, err := os.Stat(w.inputFilename)
 	if err != nil {
+		return nil, err
+	}
+	if err = verifhook.Step("inplace.chmod", file.Name()); err != nil {
 		return nil, err
 	}
 	err = os.Chmod(file.Name(), info.Mode())
@@ -35,6 +43,7 @@ func (w *writeInPlaceHandlerImpl) CreateTempFile() (*os.File, error) {
 		return nil, err
 	}
 
+	_ = verifhook.Step("inplace.chown", file.Name())
 	if err = changeOwner(info, file); err != nil {
 		return nil, err
 	}
@@ -45,7 +54,9 @@ func (w *writeInPlaceHandlerImpl) CreateTempFile() (*os.File, error) {
 
 func (w *writeInPlaceHandlerImpl) FinishWriteInPlace(evaluatedSuccessfully bool) error {
 	log.Debug("Going to write in place, evaluatedSuccessfully=%v, target=%v", evaluatedSuccessfully, w.inputFilename)
+	verifhook.StepFile("inplace.closeTemp", w.tempFile)
 	safelyCloseFile(w.tempFile)
+	_ = verifhook.Step("inplace.finish", w.inputFilename)
 	if evaluatedSuccessfully {
 		log.Debug("Moving temp file to target")
 		return tryRenameFile(w.tempFile.Name(), w.inputFilename)
